@@ -204,7 +204,9 @@ def merge_repeated_kwargs(params: List[TagParam]) -> List[TagParam]:
         # Case: First time we see a kwarg
         if param.key not in params_by_key:
             params_by_key[param.key] = param
-            param_indices_by_key[param.key] = index
+            # NOTE: Position within `resolved_params`, which is shorter than `params`
+            # once a repeated kwarg was merged into an earlier one.
+            param_indices_by_key[param.key] = len(resolved_params)
             resolved_params.append(param)
         # Case: A kwarg is repeated - we merge the values into a single string, with a space in between.
         else:
@@ -212,9 +214,9 @@ def merge_repeated_kwargs(params: List[TagParam]) -> List[TagParam]:
             # So when it actually comes to merging the values, we create a new TagParam onto
             # which we can merge values of all the repeated params. Thus, we keep track of this
             # with `replaced_param_indices`.
-            if index not in replaced_param_indices:
+            orig_param_index = param_indices_by_key[param.key]
+            if orig_param_index not in replaced_param_indices:
                 orig_param = params_by_key[param.key]
-                orig_param_index = param_indices_by_key[param.key]
                 param_copy = TagParam(key=orig_param.key, value=str(orig_param.value))
                 resolved_params[orig_param_index] = param_copy
                 params_by_key[param.key] = param_copy
